@@ -83,6 +83,8 @@ type Scenario struct {
 	Tracks     []Track `json:"tracks"`
 	// Conc (mode conc, see conc.go): concurrent callers of one Receiver.
 	Conc *Conc `json:"conc,omitempty"`
+	// Whole (mode whole, see whole.go): writer -> server -> network -> client, several formats in one media.
+	Whole *Whole `json:"whole,omitempty"`
 }
 
 const (
@@ -425,6 +427,10 @@ func gen(seed uint64, tier string) Scenario {
 	// choice moves)
 	if core.HS(seed, "c15.conc", "", 0)%100 < 10 {
 		return genConc(seed)
+	}
+	// 6%: the mapping between a server-side writer and a reading client
+	if core.HS(seed, "c15.whole", "", 0)%100 < 6 {
+		return genWhole(seed)
 	}
 	r := core.NewRand(seed, "c15")
 	sc := Scenario{Seed: seed}
@@ -1116,6 +1122,9 @@ func run(t *testing.T, sc Scenario) *core.Result {
 	if sc.Conc != nil {
 		return runConc(t, sc)
 	}
+	if sc.Whole != nil {
+		return runWhole(t, sc)
+	}
 	res := core.NewResult()
 	for _, p := range probeNames {
 		res.Probes[p] = 0
@@ -1199,6 +1208,9 @@ func clone(sc Scenario) Scenario {
 }
 
 func shrink(sc Scenario) []Scenario {
+	if sc.Whole != nil {
+		return nil
+	}
 	if sc.Conc != nil {
 		var out []Scenario
 		if sc.Conc.Reports > 2 {
@@ -1346,7 +1358,7 @@ func init() {
 		"instants in NTP era 1 (after 2036-02-07 06:28:16 UTC) and before 1970",
 		"sender reports reordered among themselves",
 	}
-	f.Rule = "scenario = 1..3 tracks x clock rate (8000/16000/44100/48000/90000 or arbitrary 1..4e6) x initial timestamp (uniform, edge values, or just below 2^32) x step class (frame cadence incl. repeated timestamps / jitter / 2^24..2^30 / up to 2^31-1 / mixed) x optional B packets (backward steps, PTS!=DTS, also before the first anchor) x start offset of tracks 2,3 x sender/receiver report period x max link delay for packets and for reports (independent) x optional correction of the writer's absolute time in the middle of a track (+-1 ms .. 3 days, mostly backwards; checks resume with the first report produced after it) x wall-clock base in 1970..2036 (uniform, whole seconds, .999999999, first day of 1970, last day of NTP era 0, around 2000). A run is non-trivial when at least one PTS difference and at least one PacketNTP value were checked. Distinct = distinct hash of the complete event log (writes, report captures, deliveries with the decoded PTS and NTP values)."
+	f.Rule = "scenario = 1..3 tracks x clock rate (8000/16000/44100/48000/90000 or arbitrary 1..4e6) x initial timestamp (uniform, edge values, or just below 2^32) x step class (frame cadence incl. repeated timestamps / jitter / 2^24..2^30 / up to 2^31-1 / mixed) x optional B packets (backward steps, PTS!=DTS, also before the first anchor) x start offset of tracks 2,3 x sender/receiver report period x max link delay for packets and for reports (independent) x optional correction of the writer's absolute time in the middle of a track (+-1 ms .. 3 days, mostly backwards; checks resume with the first report produced after it) x wall-clock base in 1970..2036 (uniform, whole seconds, .999999999, first day of 1970, last day of NTP era 0, around 2000). 6% of the runs are the whole-system mode (whole.go): a server-side writer with WritePacketRTPWithNTP, one media with 2..3 formats (own clock rate, SSRC, sender reports and absolute time line each; later formats start 50..1500 ms into the stream), a reading Client over tcp / udp that asks Client.PacketNTP for every packet. A run is non-trivial when at least one PTS difference and at least one PacketNTP value were checked. Distinct = distinct hash of the complete event log (writes, report captures, deliveries with the decoded PTS and NTP values)."
 	f.Assumptions = []string{
 		"GlobalDecoder.Decode returns the PTS in ticks of the track's clock rate (its doc comment names no unit; the returned values of the first track start at 0 and move by exactly the timestamp difference), so oracle 1 is exact: PTS(n) - PTS(first decoded packet of the track) == K(n) - K(first), where K is the writer's 64-bit timeline; the harness also checks that K differences equal the literal sum of int32(ts[i]-ts[i-1]) over the decoded packets",
 		"packets for which Decode returns false (packets with PTS!=DTS before the track's first PTS==DTS packet) are outside oracle 1; a refusal after a track was accepted is only counted (probe decode_refused_after_accept), the statement does not speak about it",
